@@ -19,7 +19,7 @@ def run(tier):
     ck.rule = "one case per TLC-enumerated inversion problem (positions, model matrix, errors, kernel, mean)"
     ck.assumptions = ["rational kernel families; integer model matrices; dyadic data errors; tolerance 1e-9 of the prior scale"]
     GE.install_atoms()
-    r = run_tlc("MC_InvertExact", cfg_text="INIT Init\nNEXT Next\nINVARIANT Symmetric\nINVARIANT PsdSmall\nCHECK_DEADLOCK FALSE\n", timeout=1800)
+    r = run_tlc("MC_InvertExact", cfg_text="INIT Init\nNEXT Next\nCONSTANT Deep = %s\nINVARIANT Symmetric\nINVARIANT PsdSmall\nCHECK_DEADLOCK FALSE\n" % ("TRUE" if tier == "thorough" else "FALSE"), timeout=1800)
     if r.violated:
         ck.violation("spec: InvertExact " + ",".join(r.violated), {"violated": r.violated}, site="spec")
     must_pass(r, "MC_InvertExact")
